@@ -399,14 +399,27 @@ def _coord_words(x: float) -> str:
     return s
 
 
+def _payload_words(edge, payload_toks: List[str]) -> List[str]:
+    """what stands between the brackets of a curved edge, for the model: the *positions* the library's edge item
+    prints (arc: third point; spline/polyLine: point_array) as exact rationals -- the model does the printing
+    (`Point.description` / `vector_format`, fmt8) -- or opaque tokens (labels of a projected edge)."""
+    if hasattr(edge, "third_point"):
+        return ["P"] + [_coord_words(x) for x in edge.third_point.position]
+    if hasattr(edge, "point_array"):
+        pts = [[float(x) for x in p] for p in edge.point_array]
+        return ["L", str(len(pts))] + [_coord_words(x) for p in pts for x in p]
+    return ["R"] + w_toks(payload_toks)
+
+
 def _edge_decl(cb, data, p1, p2) -> List[str]:
-    """[repr, valid, preFwd, fwd tokens, preBwd, bwd tokens] as protocol words; the payload is taken from the
-    library's own edge item built on the operation's points (opaque: belongs to C07/C08)."""
+    """[repr, valid, preFwd, fwd payload, preBwd, bwd payload] as protocol words; the points of the payload are taken
+    from the library's own edge item built on the operation's points (their *values* belong to C07/C08), their
+    text is rendered by the model."""
     from classy_blocks.items.edges.factory import factory
     from classy_blocks.items.vertex import Vertex
 
     if data.kind == "line":
-        return [w_str("line"), "0", "!", "0", "!", "0"]
+        return [w_str("line"), "0", "!", "R", "0", "!", "R", "0"]
     out: List[str] = []
     first = True
     for a, b in ((p1, p2), (p2, p1)):
@@ -415,22 +428,22 @@ def _edge_decl(cb, data, p1, p2) -> List[str]:
             edge = factory.create(Vertex(a, 900001), Vertex(b, 900002), data)
             valid = bool(edge.is_valid)
             desc = edge.description if valid else ""
-        toks = tokenize(desc)
-        pre = "!"
-        if toks and toks[0].startswith("//"):
-            m = re.fullmatch(r"(// \S+ )900001 900002(.*)", toks[0])
-            assert m, toks[0]
-            pre = [w_str(m.group(1)), w_str(m.group(2))]
-            toks = toks[1:]
-        if valid:
-            assert toks[1:3] == ["900001", "900002"] and toks[3] == "(" and toks[-1] == ")", toks
-            rep, payload = toks[0], toks[4:-1]
-        else:
-            rep, payload = data.kind, []
+            toks = tokenize(desc)
+            pre = "!"
+            if toks and toks[0].startswith("//"):
+                m = re.fullmatch(r"(// \S+ )900001 900002(.*)", toks[0])
+                assert m, toks[0]
+                pre = [w_str(m.group(1)), w_str(m.group(2))]
+                toks = toks[1:]
+            if valid:
+                assert toks[1:3] == ["900001", "900002"] and toks[3] == "(" and toks[-1] == ")", toks
+                rep, payload = toks[0], _payload_words(edge, toks[4:-1])
+            else:
+                rep, payload = data.kind, ["R", "0"]
         if first:
             out += [w_str(rep), "1" if valid else "0"]
             first = False
-        out += (pre if isinstance(pre, list) else [pre]) + w_toks(payload)
+        out += (pre if isinstance(pre, list) else [pre]) + payload
     return out
 
 
